@@ -568,6 +568,9 @@ class Ev:
                 return BoundLib("pint.Quantity.to", v)
             if name in ("units", "u"):
                 return UnitV(v.unit)
+        if isinstance(v, Tup) and name in ("sum", "mean") and v.items and all(is_sym(i) and not isinstance(i, bool) for i in v.items):
+            tot = sum((as_sym(i) for i in v.items), sp.Integer(0))
+            return BoundLib("const_method", tot if name == "sum" else tot / len(v.items))
         if isinstance(v, Tup) and name in ("shape",):
             raise self.err("shape of a tuple", node, mod)
         if is_sym(v):
@@ -2522,6 +2525,10 @@ def lib_array(ev, a, k, n, mod):
     if isinstance(x, ArrV) and k.get("copy", True) is not False:
         out = ArrV(x.batch, x.shape, x.fill, dict(x.cells), batch_last=x.batch_last)
         return out
+    if isinstance(x, Tup) and x.kind in ("list", "tuple") and x.items and all(is_sym(i) and not isinstance(i, bool) for i in x.items) \
+            and any(as_sym(i).free_symbols for i in x.items) and not getattr(x, "elementwise_seq", False) and not getattr(x, "gen", False):
+        # a list of scalar expressions becomes a vector (arithmetic, .sum(), slices)
+        return ArrV(0, (len(x.items),), cells={(j,): i for j, i in enumerate(x.items)})
     return x
 
 
@@ -3842,8 +3849,22 @@ def _binary(op):
     def f(ev, a, k, n, mod):
         if not _float_dtype(k.get("dtype")):
             raise ev.err(f"dtype {k.get('dtype')!r} is not modelled", n, mod)
-        return ev.binop(op, a[0], a[1], n, mod)
-    f.kw = {"dtype"}
+        r = ev.binop(op, a[0], a[1], n, mod)
+        out = k.get("out", a[2] if len(a) > 2 else None)
+        if out is None:
+            return r
+        if isinstance(out, Tup) and len(out.items) == 1:
+            out = out.items[0]
+        if isinstance(out, ArrV) and isinstance(r, ArrV) and r.shape == out.shape and r.batch == out.batch:
+            # stored into that very array: every name bound to it (and the array a view was taken from) sees the result
+            for key in itertools.product(*[range(d) for d in out.shape]):
+                out.cells[key] = r.get(key)
+            if not isinstance(out.cells, _ViewCells):
+                out.fill = r.fill
+            ev.epoch += 1
+            return out
+        raise ev.err("ufunc with out= on a value that is not a small array of the result's shape", n, mod)
+    f.kw = {"dtype", "out"}
     return f
 
 
@@ -4027,8 +4048,11 @@ def lib_ufunc2(opcls):
             return r
         if isinstance(out, Tup) and len(out.items) == 1:
             out = out.items[0]
-        if isinstance(out, ArrV) and isinstance(r, ArrV):
-            out.batch, out.shape, out.fill, out.cells, out.batch_last = r.batch, r.shape, r.fill, dict(r.cells), r.batch_last
+        if isinstance(out, ArrV) and isinstance(r, ArrV) and r.shape == out.shape and r.batch == out.batch:
+            for key in itertools.product(*[range(d) for d in out.shape]):
+                out.cells[key] = r.get(key)
+            if not isinstance(out.cells, _ViewCells):
+                out.fill = r.fill
             ev.epoch += 1
             return out
         raise ev.err("ufunc with out= on a value that is not a small array", n, mod)
@@ -4723,6 +4747,16 @@ def lib_broadcast_to(ev, a, k, n, mod):
 lib_broadcast_to.kw = {"shape"}
 LIB.setdefault("numpy.broadcast_to", lib_broadcast_to)
 LIB.setdefault("numpy.atleast_2d", lib_atleast_2d)
+def lib_const_method(ev, a, k, n, mod):
+    """x.sum() / x.mean() of a constant-length list of expressions, already folded; an axis other than the only one raises as numpy does"""
+    axis = k.get("axis", a[1] if len(a) > 1 else None)
+    if axis is not None and _const_int(axis) not in (0, -1):
+        raise RaisedV("ValueError", f"{mod.rel}:{getattr(n, 'lineno', 0)}" if mod else "")
+    return a[0]
+
+
+lib_const_method.kw = {"axis"}
+LIB["const_method"] = lib_const_method
 LIB.setdefault("numpy.diag", lib_diag)
 LIB.setdefault("numpy.einsum", lib_einsum)
 LIB.setdefault("numpy.real", _elementwise(sp.re))
